@@ -129,7 +129,9 @@ def main():
             s["baseline_always_fail"] = sorted(set(s.get("baseline_always_fail", [])) | (always & set(s.get("still_failing", []))))
             s["still_failing"] = [t for t in s.get("still_failing", []) if t not in always]
             s["ok"] = bool(s["run"] >= 300 and not s["still_failing"] and s["passed"] + len(s.get("failed_first_run", [])) >= s["run"])
-            fails_with = any(int(x) > 0 for d in res["demo_with_patch"] for (_, _, x) in d["results"])
+            fails_with = any(int(x) > 0 for d in res["demo_with_patch"] for (_, _, x) in d["results"]) or any(
+                not d["results"] and re.search(r"signal: \d+|SIGABRT|error: test failed|process didn't exit successfully", d.get("tail", ""))
+                for d in res["demo_with_patch"])
             clean_without = all(int(x) == 0 for d in res["demo_without_patch"] for (_, _, x) in d["results"]) and any(
                 int(p) > 0 for d in res["demo_without_patch"] for (_, p, _) in d["results"])
             res["confirmed"] = bool(s["ok"] and fails_with and clean_without)
@@ -173,7 +175,9 @@ def main():
                     demo.append({"cmd": cmd, "results": ok})
                 res["demo_without_patch"] = demo
                 s = res["existing_tests_with_patch"]
-                fails_with = any(int(f) > 0 for x in res["demo_with_patch"] for (_, _, f) in x["results"])
+                fails_with = any(int(f) > 0 for x in res["demo_with_patch"] for (_, _, f) in x["results"]) or any(
+                    not x["results"] and re.search(r"signal: \d+|SIGABRT|error: test failed|process didn't exit successfully", x.get("tail", ""))
+                    for x in res["demo_with_patch"])
                 clean_without = all(int(f) == 0 for x in res["demo_without_patch"] for (_, _, f) in x["results"]) and any(
                     int(p) > 0 for x in res["demo_without_patch"] for (_, p, _) in x["results"])
                 res["confirmed"] = bool(s["ok"] and fails_with and clean_without)
